@@ -107,7 +107,7 @@ func TestPropRealBlocksVerifyAndTamperedOnesDoNot(t *testing.T) {
 	if len(fixtures) < 10 {
 		stats.HarnessError("only %d fixture blocks found", len(fixtures))
 	}
-	stats.Check(t, stats.Budget{Quick: 40, Thorough: 300},
+	stats.Check(t, stats.Budget{Quick: 100, Thorough: 300},
 		"real-network fixture blocks (mainnet, sepolia, sepolia-integration, goerli, goerli2, integration; formats pre-0.7 ... 0.14.x) through core.VerifyBlockHash with both temporary-trie backends: untampered must verify; one field committed in that block's format (number, parent, root, tx hash, tx order, and for >= 0.13.2 timestamp, sequencer, gas prices, receipts, events, state diff) changed must fail; non-trivial = the fixture is verifiable (outside documented unverifiable ranges) and a tamper was applied",
 		func(rt *rapid.T, c *stats.Case) {
 			fx := fixtures[gen.Uniform(rt, len(fixtures), "fixture")]
